@@ -259,6 +259,10 @@ def run(ctx):
                 "def o = <*checkerlang_secure_mode = FALSE, go = fn(self) bind_native('file_exists')*>; o->go()",
                 "require Flagmod as checkerlang_secure_mode", "require Flagmod import [probe as checkerlang_secure_mode]",
                 "checkerlang_secure_mode -= 1", "checkerlang_secure_mode *= 0",
+                # a program-chosen module path: requiring a module that is not there may read nothing and list nothing
+                f"def checkerlang_module_path = ['{canary_dir}']; require Nosuchmodule", f"def checkerlang_module_path = ['{canary_dir}']; do require Nosuchmodule catch all 1 end",
+                f"def checkerlang_module_path = ['{canary_dir}', '{tmp}', '/', '.']; do require secret catch all 1 end; do require Nosuch2 unqualified catch all 1 end",
+                f"def f() do def checkerlang_module_path = ['{canary_dir}']; require Nosuch3 end; do f() catch all 1 end",
             ]
             for fp in flag_progs:
                 it4 = fresh(legacy)
